@@ -17,7 +17,8 @@ theorem C15_classification_total (e : ErrFlags) :
 
 /-- faults that happen before a complete response header block -/
 def beforeHeaders : Fault → Bool
-  | .refuse | .close | .garbage | .midStatus | .midHeaders | .afterStatus | .afterHeaderLine | .silence => true
+  | .refuse | .close | .garbage | .midStatus | .midHeaders | .afterStatus | .afterHeaderLine | .silence
+  | .reset | .resetMidHeaders => true
   | _ => false
 
 /-- Every fault before the header block yields a complete, well-formed error response: 504 when
